@@ -5,16 +5,22 @@ package main
 // per destination port, filter_chain_match.transport_protocol / application_protocols, HTTP or TCP
 // proxy, and whether the chain has a DownstreamTlsContext requiring a client certificate.
 //
-//	il <ns> <labels>     -> <dst>:<tp>.<term>.<http>.<alpn>.<sock>,...   (sorted; dst "*" = no destination port)
+//	il  <ns> <labels>            -> <dst>:<tp>.<alpn>.<http>.<sock>,...   (sorted; dst "*" = no destination port)
+//	ils <ns> <labels> <ingress>  -> same, for a proxy whose namespace has a Sidecar with ingress listeners
+//	                                ingress: <port>:<http|tcp>:<userTLS 0|1>,...
 //
-// The proxy has three services: port 80 HTTP, 8080 TCP, 9090 unnamed/auto.  Ports 9000 and 7777 are
-// not service ports: 9000 is reached through a per-port passthrough chain when the selected workload
-// policy has a port-level entry for it, 7777 always through the catch-all passthrough chains.
+// The proxy has four services: 80 HTTP, 8080 TCP, 9090 unnamed/auto (port = target port) and service
+// port 81 with TARGET port 8081 (HTTP).  Ports 81, 9000 and 7777 are not target ports: 81 and 9000 are
+// reached through a per-port passthrough chain when the selected workload policy has a port-level entry
+// for them, 7777 always through the catch-all passthrough chains.
+// sock: 0 no transport socket, 1 DownstreamTlsContext without require_client_certificate, 2 with
+// require_client_certificate AND a validation context, X require_client_certificate without validation context.
 
 import (
 	"fmt"
 	"os"
 	"sort"
+	"strconv"
 	"strings"
 	"sync"
 
@@ -23,6 +29,8 @@ import (
 	"istio.io/istio/pkg/wellknown"
 
 	meshconfig "istio.io/api/mesh/v1alpha1"
+	networkingapi "istio.io/api/networking/v1alpha3"
+	"istio.io/istio/pilot/pkg/features"
 	"istio.io/istio/pilot/pkg/model"
 	"istio.io/istio/pilot/pkg/networking/core"
 	xdsfilters "istio.io/istio/pilot/pkg/xds/filters"
@@ -30,6 +38,7 @@ import (
 	"istio.io/istio/pkg/config/host"
 	"istio.io/istio/pkg/config/mesh"
 	"istio.io/istio/pkg/config/protocol"
+	"istio.io/istio/pkg/config/schema/gvk"
 	"verifharness/internal/wire"
 )
 
@@ -44,9 +53,13 @@ func (f *failer) Fatal(args ...any)              { panic(fmt.Sprint(args...)) }
 func (f *failer) Fatalf(format string, a ...any) { panic(fmt.Sprintf(format, a...)) }
 func (f *failer) Log(args ...any)                {}
 func (f *failer) Logf(format string, a ...any)   {}
-func (f *failer) TempDir() string                { d, _ := os.MkdirTemp("", "c10"); return d }
-func (f *failer) Helper()                        {}
-func (f *failer) Skip(args ...any)               {}
+func (f *failer) TempDir() string {
+	d, _ := os.MkdirTemp("", "c10")
+	f.Cleanup(func() { os.RemoveAll(d) })
+	return d
+}
+func (f *failer) Helper()          {}
+func (f *failer) Skip(args ...any) {}
 func (f *failer) Cleanup(fn func()) {
 	f.mu.Lock()
 	defer f.mu.Unlock()
@@ -64,18 +77,75 @@ func (f *failer) done() {
 }
 
 type svcPort struct {
-	port  int
-	proto protocol.Instance
+	port   int
+	target int
+	proto  protocol.Instance
 }
 
-var inboundSvcPorts = []svcPort{{80, protocol.HTTP}, {8080, protocol.TCP}, {9090, protocol.Unsupported}}
+var inboundSvcPorts = []svcPort{{80, 80, protocol.HTTP}, {8080, 8080, protocol.TCP}, {9090, 9090, protocol.Unsupported}, {81, 8081, protocol.HTTP}}
 
-func (s *sut) inboundListener(ns string, labels [][2]string) string {
+// inboundDests are the destination ports the oracle looks at.
+var inboundDests = []uint32{80, 8080, 9090, 8081, 81, 9000, 7777}
+
+type ingressIn struct {
+	port    uint32
+	http    bool
+	userTLS bool
+}
+
+func parseIngress(tok string) []ingressIn {
+	var out []ingressIn
+	for _, e := range wire.DecList(tok) {
+		p := strings.Split(e, ":")
+		if len(p) != 3 {
+			continue
+		}
+		n, _ := strconv.ParseUint(p[0], 10, 32)
+		out = append(out, ingressIn{uint32(n), p[1] == "http", p[2] == "1"})
+	}
+	return out
+}
+
+func sidecarConfig(ns string, ingress []ingressIn) config.Config {
+	sc := &networkingapi.Sidecar{}
+	for _, i := range ingress {
+		proto := "TCP"
+		switch {
+		case i.http && i.userTLS:
+			proto = "HTTPS"
+		case i.http:
+			proto = "HTTP"
+		case i.userTLS:
+			proto = "TLS"
+		}
+		l := &networkingapi.IstioIngressListener{
+			Port:            &networkingapi.SidecarPort{Number: i.port, Protocol: proto, Name: fmt.Sprintf("p%d", i.port)},
+			DefaultEndpoint: fmt.Sprintf("127.0.0.1:%d", i.port),
+		}
+		if i.userTLS {
+			l.Tls = &networkingapi.ServerTLSSettings{
+				Mode: networkingapi.ServerTLSSettings_SIMPLE, ServerCertificate: "/etc/certs/cert.pem", PrivateKey: "/etc/certs/key.pem",
+			}
+		}
+		sc.Ingress = append(sc.Ingress, l)
+	}
+	return config.Config{
+		Meta: config.Meta{GroupVersionKind: gvk.Sidecar, Name: "sc", Namespace: ns},
+		Spec: sc,
+	}
+}
+
+func (s *sut) inboundListener(ns string, labels [][2]string, ingress []ingressIn) string {
 	f := &failer{}
 	defer f.done()
 	var cfgs []config.Config
 	for _, p := range s.pas {
 		cfgs = append(cfgs, configOf(p))
+	}
+	if len(ingress) > 0 {
+		// user TLS on Sidecar ingress listeners is behind a feature flag that is off by default
+		features.EnableTLSOnSidecarIngress = true
+		cfgs = append(cfgs, sidecarConfig(ns, ingress))
 	}
 	const ip = "10.1.1.1"
 	var services []*model.Service
@@ -93,7 +163,7 @@ func (s *sut) inboundListener(ns string, labels [][2]string) string {
 			Service:     svc,
 			ServicePort: svc.Ports[0],
 			Endpoint: &model.IstioEndpoint{
-				Addresses: []string{ip}, EndpointPort: uint32(sp.port), ServicePortName: "default",
+				Addresses: []string{ip}, EndpointPort: uint32(sp.target), ServicePortName: "default",
 				Namespace: ns, Labels: labelsMap(labels),
 			},
 		})
@@ -142,12 +212,11 @@ func (s *sut) inboundListener(ns string, labels [][2]string) string {
 		}
 		sock := "0"
 		if ts := fc.TransportSocket; ts != nil {
-			sock = "1"
 			ctx := &tlsv3.DownstreamTlsContext{}
 			if err := ts.GetTypedConfig().UnmarshalTo(ctx); err != nil {
 				sock = "?"
-			} else if ctx.RequireClientCertificate.GetValue() {
-				sock = "2"
+			} else {
+				sock = sockClass(ctx)
 			}
 		}
 		out = append(out, fmt.Sprintf("%s:%s.%d.%s", dst, tp, alpnClass(m.GetApplicationProtocols()), http+"."+sock))
@@ -161,9 +230,38 @@ func (s *sut) inboundListener(ns string, labels [][2]string) string {
 
 var _ = meshconfig.MeshConfig{}
 
+// sockClass: what a DownstreamTlsContext demands from the peer.
+func sockClass(ctx *tlsv3.DownstreamTlsContext) string {
+	if ctx == nil {
+		return "0"
+	}
+	c := ctx.GetCommonTlsContext()
+	validates := c.GetCombinedValidationContext() != nil || c.GetValidationContext() != nil || c.GetValidationContextSdsSecretConfig() != nil
+	switch {
+	case ctx.RequireClientCertificate.GetValue() && validates:
+		return "2"
+	case ctx.RequireClientCertificate.GetValue():
+		return "X"
+	default:
+		return "1"
+	}
+}
+
 // inboundOracle: the property's inbound clause on the real listener, per destination port.
 func (s *sut) inboundOracle(f []string, res string, fail func(clause, class, detail string)) {
 	ns, labels := wire.Dec(f[1]), parseLabels(f[2])
+	userTLS := map[uint32]bool{}
+	targets := map[uint32]bool{}
+	if f[0] == "ils" {
+		for _, i := range parseIngress(f[3]) {
+			userTLS[i.port] = i.userTLS
+			targets[i.port] = true
+		}
+	} else {
+		for _, sp := range inboundSvcPorts {
+			targets[uint32(sp.target)] = true
+		}
+	}
 	type ch struct{ tp, sock string }
 	byDst := map[string][]ch{}
 	if res != "-" {
@@ -177,7 +275,7 @@ func (s *sut) inboundOracle(f []string, res string, fail func(clause, class, det
 			byDst[dst] = append(byDst[dst], ch{p[0], p[3]})
 		}
 	}
-	for _, d := range []uint32{80, 8080, 9090, 9000, 7777} {
+	for _, d := range inboundDests {
 		cs := byDst[fmt.Sprint(d)]
 		if len(cs) == 0 {
 			cs = byDst["*"]
@@ -192,14 +290,22 @@ func (s *sut) inboundOracle(f []string, res string, fail func(clause, class, det
 			case c.tp == "1" && c.sock == "0":
 				passTLS = true
 			}
-			if c.sock == "1" || c.sock == "?" || c.tp == "?" {
+			if c.sock == "1" || c.sock == "?" || c.sock == "X" || c.tp == "?" {
 				oneWay = true
 			}
 		}
 		want := effectiveMode(s.pas, s.root, ns, labels, d)
-		kind := "service-port"
-		if d == 9000 || d == 7777 {
-			kind = "non-service-port"
+		kind := "non-target-port"
+		if targets[d] {
+			kind = "target-port"
+		}
+		if userTLS[d] && want == "DISABLE" {
+			// Sidecar ingress listener with its own TLS settings under DISABLE: the user's TLS is terminated
+			// (exactly one tls chain, no client certificate required, nothing else)
+			if len(cs) != 1 || cs[0].tp != "1" || cs[0].sock != "1" {
+				fail("inbound-enforces", "user-tls-chain-shape", fmt.Sprintf("port %d chains %s", d, res))
+			}
+			continue
 		}
 		switch {
 		case oneWay:
